@@ -226,3 +226,33 @@ def stub_path() -> None:
     from spil.sid.pathops import fs_resolver
 
     fs_resolver.Path = StrPath
+
+
+_clearables = None
+
+
+def clear_caches() -> None:
+    """Reset every spil / resolva memo (used by obligations that run with caches ON, so that each symbolic
+    path starts from a fresh cache state; configuration-level caches are kept)."""
+    global _clearables
+    if _clearables is None:
+        found = []
+        for modname, mod in list(sys.modules.items()):
+            if mod is None or not (modname == "spil" or modname.startswith("spil.") or modname.startswith("spil_")):
+                continue
+            for k, v in list(vars(mod).items()):
+                if callable(v) and hasattr(v, "cache_clear") and getattr(v, "__name__", "") not in KEEP_CACHED:
+                    found.append(v)
+                elif isinstance(v, type):
+                    for ck, cv in list(vars(v).items()):
+                        if callable(cv) and hasattr(cv, "cache_clear"):
+                            found.append(cv)
+        import resolva
+
+        for name in ("resolve_first", "resolve_one", "resolve_all"):
+            f = vars(resolva.Resolver).get(name)
+            if f is not None and hasattr(f, "cache_clear"):
+                found.append(f)
+        _clearables = found
+    for f in _clearables:
+        f.cache_clear()
